@@ -1,0 +1,8 @@
+//go:build !verif
+
+package gkvlite
+
+// verifYield is a no-op unless the package is built with -tags verif
+// (see verif_on.go).  It marks points where a deterministic simulator
+// may suspend the calling goroutine; no lock is held at any call site.
+func verifYield(site int) {}
